@@ -31,6 +31,12 @@ def escape_family(rng=None, extra=0):
         out.append('"""\\u%s"""' % a)
         for b in bound:
             out.append('"\\u%s\\u%s"' % (a, b))
+    for bad in ["ZZZZ", "00", "", "G000", "000G", "{", "12", "-001", "00\n", " 0000", "D83"]:
+        for b in ["DE00", "DC00", "DFFF", "D83D", "0041", "E000"]:
+            out.append('"\\u%s\\u%s"' % (bad, b))
+            out.append('"\\u%s\\u%s' % (bad, b))
+            out.append('"\\u%s\\u{%s}"' % (bad, b))
+            out.append('"\\u{%s}\\u%s"' % (bad, b))
     for v in ["0", "00000000", "10FFFF", "110000", "0010FFFF", "00110000", "FFFFFF", "FFFFFFF", "FFFFFFFF", "123456789",
               "D7FF", "D800", "DFFF", "E000", "", "G", "1G", " 1", "1 ", "-1", "+1", "1F600", "1f600", "{1}"]:
         out.append('"\\u{%s}"' % v)
